@@ -572,12 +572,29 @@ fn read_set(fs: &FileSystem, m: &Model, u: &Universe, bad: &mut Vec<Bad>) -> u64
     reads
 }
 
+/// history as a shared parent-pointer list (prefixes are shared between states)
+struct PathNode {
+    label: String,
+    parent: Option<Arc<PathNode>>,
+}
+
+fn path_vec(p: &Option<Arc<PathNode>>) -> Vec<String> {
+    let mut v = Vec::new();
+    let mut cur = p.clone();
+    while let Some(n) = cur {
+        v.push(n.label.clone());
+        cur = n.parent.clone();
+    }
+    v.reverse();
+    v
+}
+
 #[derive(Clone)]
 struct State {
     model: Model,
     disk: Snapshot,
     depth: usize,
-    path: Vec<String>,
+    path: Option<Arc<PathNode>>,
 }
 
 fn canon(model: &Model, disk: &Snapshot) -> u64 {
@@ -621,7 +638,7 @@ pub fn run(ctx: &Ctx) -> (Acc, Report) {
     let mut acc = ctx.acc();
     let u = universe(ctx.tier);
     let scratch = Scratch::new("c18");
-    let wall_cap = std::time::Duration::from_secs(ctx.tier.pick(45, 900));
+    let wall_cap = std::time::Duration::from_secs(ctx.tier.pick(45, 600));
     let max_depth = ctx.tier.pick(usize::MAX, usize::MAX);
 
     // replay of one history (a witness): the operation labels are re-executed from the empty store
@@ -654,7 +671,7 @@ pub fn run(ctx: &Ctx) -> (Acc, Report) {
 
     let mut seen: HashSet<u64> = HashSet::new();
     let mut frontier: VecDeque<State> = VecDeque::new();
-    let init = State { model: Model::default(), disk: Snapshot::new(), depth: 0, path: vec![] };
+    let init = State { model: Model::default(), disk: Snapshot::new(), depth: 0, path: None };
     seen.insert(canon(&init.model, &init.disk));
     frontier.push_back(init);
     let mut states: u64 = 0;
@@ -666,11 +683,13 @@ pub fn run(ctx: &Ctx) -> (Acc, Report) {
 
     // BFS level by level; each level's states are expanded in parallel, results merged in order
     while !frontier.is_empty() {
-        if ctx.start.elapsed() > wall_cap || rss_bytes() > (24u64 << 30) {
+        if ctx.start.elapsed() > wall_cap || rss_bytes() > (12u64 << 30) {
             capped = true;
             break;
         }
-        let level: Vec<State> = frontier.drain(..).collect();
+        // a bounded batch of the current frontier (FIFO order is kept, so the search stays breadth-first)
+        let take = frontier.len().min(1024);
+        let level: Vec<State> = frontier.drain(..take).collect();
         let base_no = dir_no;
         dir_no += level.len() as u64;
         let results: Vec<(Vec<(State, u64)>, Vec<(String, Bad, Vec<String>)>, u64, u64)> = {
@@ -699,11 +718,11 @@ pub fn run(ctx: &Ctx) -> (Acc, Report) {
                                     let mut b = Vec::new();
                                     n_rd += read_set(&fs, &st.model, u, &mut b);
                                     for x in b {
-                                        bads.push(("<read set>".to_owned(), x, st.path.clone()));
+                                        bads.push(("<read set>".to_owned(), x, path_vec(&st.path)));
                                     }
                                     // reads must not change the store
                                     if snapshot(&dir) != st.disk {
-                                        bads.push(("<read set>".to_owned(), Bad { kind: "reads-change-the-store".into(), msg: format!("{:?}", diff(&st.disk, &snapshot(&dir))) }, st.path.clone()));
+                                        bads.push(("<read set>".to_owned(), Bad { kind: "reads-change-the-store".into(), msg: format!("{:?}", diff(&st.disk, &snapshot(&dir))) }, path_vec(&st.path)));
                                     }
                                     let _ = std::fs::remove_dir_all(&dir);
                                 }
@@ -714,15 +733,14 @@ pub fn run(ctx: &Ctx) -> (Acc, Report) {
                                     let mut m2 = st.model.clone();
                                     let r = std::panic::catch_unwind(std::panic::AssertUnwindSafe(|| apply(&fs, &mut m2, op)));
                                     n_tr += 1;
-                                    let mut path = st.path.clone();
-                                    path.push(op.label());
+                                    let path = Some(Arc::new(PathNode { label: op.label(), parent: st.path.clone() }));
                                     match r {
                                         Ok(b) => {
                                             for x in b {
-                                                bads.push((op.label(), x, path.clone()));
+                                                bads.push((op.label(), x, path_vec(&path)));
                                             }
                                         }
-                                        Err(_) => bads.push((op.label(), Bad { kind: "backend-panics".into(), msg: "panic".into() }, path.clone())),
+                                        Err(_) => bads.push((op.label(), Bad { kind: "backend-panics".into(), msg: "panic".into() }, path_vec(&path))),
                                     }
                                     let disk = snapshot(&dir);
                                     let _ = std::fs::remove_dir_all(&dir);
@@ -754,7 +772,7 @@ pub fn run(ctx: &Ctx) -> (Acc, Report) {
                 max_depth_seen = max_depth_seen.max(st.depth);
                 if st.depth <= max_depth && seen.insert(key) {
                     if states < 4 && st.depth == 1 {
-                        acc.sample(st.depth as u64, json!({"history": st.path, "model": format!("{:?}", st.model), "disk_entries": st.disk.keys().collect::<Vec<_>>()}));
+                        acc.sample(st.depth as u64, json!({"history": path_vec(&st.path), "model": format!("{:?}", st.model), "disk_entries": st.disk.keys().collect::<Vec<_>>()}));
                     }
                     frontier.push_back(st);
                 }
